@@ -30,6 +30,10 @@ func Scenarios(thorough bool) map[string]*Scenario {
 	// Deployment canary style (extra canary Deployment) + nginx Ingress; last step covers all replicas with traffic
 	m["Q05"] = &Scenario{ID: "Q05", Kind: "Deployment", Style: "canary", Replicas: 3, Traffic: "ingress", Grace: 1,
 		Steps: []StepSpec{{Replicas: "1", Traffic: "20%"}, {Replicas: "3", Traffic: "50%"}}}
+	// canary style on a Deployment whose own strategy is Recreate (at promotion the native controller first
+	// removes every old pod, then creates the new ones)
+	m["Q05r"] = &Scenario{ID: "Q05r", Kind: "Deployment", Style: "canary", Replicas: 2, Recreate: true,
+		Steps: []StepSpec{{Replicas: "1"}, {Replicas: "2"}}}
 	// Deployment partition style (the repository's advanced Deployment controller drives the ReplicaSets)
 	m["Q07"] = &Scenario{ID: "Q07", Kind: "Deployment", Style: "partition", Replicas: 3,
 		Steps: []StepSpec{{Replicas: "34%"}, {Replicas: "100%"}}}
@@ -75,7 +79,7 @@ func Plans(thorough bool) map[string]PropertyPlan {
 			FreeQueues: true, StateCap: capQ, Monitors: func(w *World, sc *Scenario) []Monitor { return []Monitor{ExposureMonitor{}} }},
 		"C02": {Scenarios: []string{"Q01", "Q01b", "Q05", "Q08"}, Actions: []string{"pause", "resume", "editPlanMore"}, MaxUser: u, Disturbances: []string{"crash", "midcrash"}, MaxDisturb: 1,
 			FreeQueues: true, StateCap: capQ, Monitors: func(w *World, sc *Scenario) []Monitor { return []Monitor{StepMonitor{}} }},
-		"C11": {Scenarios: []string{"Q01", "Q01b", "Q05", "Q07", "Q08"}, Actions: []string{"scaleUp", "scaleDown", "editPlanMore", "degrade"}, MaxUser: u,
+		"C11": {Scenarios: []string{"Q01", "Q01b", "Q05", "Q05r", "Q07", "Q08"}, Actions: []string{"scaleUp", "scaleDown", "editPlanMore", "degrade"}, MaxUser: u,
 			FreeQueues: true, StateCap: capQ, Monitors: func(w *World, sc *Scenario) []Monitor { return []Monitor{BatchStatusMonitor{}} }},
 		"C03": {Scenarios: []string{"Q02", "Q02b", "Q05", "Q08"}, Actions: []string{"jump(2)", "jump(3)", "jump(1)", "editPlanMore", "scaleUp"}, MaxUser: u,
 			FreeQueues: true, StateCap: capQ, Monitors: func(w *World, sc *Scenario) []Monitor { return []Monitor{TrafficOrderMonitor{}} }},
